@@ -34,6 +34,12 @@ CHECKS = {
     text="Signatures generated from a grammar of the supported class (deps forms, parameter kinds, type/lifetime/const generics with inline and where bounds and lifetime predicates, sync/async, unsafe/extern, borrowed and generic returns, option sets, both feature settings) are expanded and type/borrow-checked by rustc. Each program coerces the fn item and the trait method to one fn-pointer type computed from the generator's model and calls the method from a witness fn with the modelled parameter and return types (exact Future::Output and is_send for async). 2x1500 quick / 2x40000 thorough; failures are shrunk on the tape.",
     note="`-> impl Trait` returns and `const fn` are outside the stated class; safe->unsafe fn-pointer coercion means a lost `unsafe` on the method is not visible here; the plain twin must compile or the case is discarded (generator fault, run inconclusive above 1%).",
     design="§2 C03"),
+ "C04": dict(
+    technique="property-based testing with run-time trait-availability probes (inherent-over-trait method resolution) over a family of application types derived from each generated bound declaration",
+    engine="E2",
+    text="Generated fns/modules declaring 0..4 dependency bounds in every syntactic form (inline, where, impl A + B, split, spread over module fns), by reference or by value, crossed with mock settings and both feature settings; for each, a family of probe types (all bounds, exactly one bound missing, unrelated extra trait, !Sync, Sync+!Send), bare and inside Impl<..>, is probed at run time and compared with `declared subset of traits(P) and Sync and (Send if by value)`, bare types only when not mockable. 2x400 programs (about 10 probes each) quick / 2x6000 thorough.",
+    note="`'static` is not probed (selection ignores lifetimes). A program whose generated impl fails to type-check while its attribute-free twin compiles is reported as a dropped bound. Mock derivations stay un-exported here.",
+    design="§2 C04"),
  "C08": dict(
     technique="property-based testing: generated modules with decoy items, generator-side ground truth for the method list, syn-parsed trait of the expansion as observation",
     engine="E1",
